@@ -13,6 +13,8 @@ Decided structurally (PBasic.cpp only):
                 {<,<=,<>} and the `greater` disjunct {>,>=,<>}; term accepts {*,/,MOD}, sexpr {+,-}, expr {OR,XOR}
   C17.ops       the branch selected by each operator token applies the matching C++ operation: * -> *=, / -> /= (zero divisor
                 handled), MOD -> fmod, + -> += / strcat, - -> -=, ^ -> exp(y*log x), AND -> &, OR -> |, XOR -> ^ on (long) casts
+  C17.next      FOR/NEXT: the step is added to the loop variable in place before the limit test
+                (step<0 || v<=max) && (step>0 || v>=max); the continuing branch jumps to the loop's home line
   C17.chain     precedence is the strict chain expr > andexpr > relexpr > sexpr > term > upexpr > factor (each level parses its
                 operands with the next level; ^ is right-associative)
 Not decided: (e) arithmetic/string results for all programs, (f) malformed programs always give a BASIC error.
@@ -75,6 +77,56 @@ def find_masks(n, vals, kvar=None):
                     if m is not None:
                         out.append((m, x))
     return out
+
+
+def next_rule(P, R, fn):
+    """NEXT adds the step to the loop variable IN PLACE and unconditionally, then tests the limit: after normal termination
+    the variable holds the first value beyond the limit (standard BASIC; programs read it, e.g. search loops).  The test is
+    (step < 0 || v <= max) && (step > 0 || v >= max); the continuing branch jumps back to the loop's home line."""
+    R.rule("C17.next", "NEXT: loop variable += step unconditionally before the limit test; test is (step<0 || v<=max) && (step>0 || v>=max); continue jumps home", minimum=3)
+    f = fn("cmdnext")
+    where = dict(file=f["file"], line=f["line"], function=f["q"])
+    st = [s_ for s_ in f["body"][2] if T.is_node(s_)]
+
+    def is_val(n):
+        r, steps = T.access_path(n)
+        fl = [x[1].split("::")[-1] for x in steps if x[0] == "f"]
+        return bool(fl) and fl[-1] == "val" and steps[-1] == ("*",)
+
+    def fld(n, name):
+        n = T.strip_casts(n)
+        return T.is_node(n) and n[0] == "Member" and n[2].split("::")[-1] == name
+    upd = [i for i, s_ in enumerate(st) if s_[0] == "Bin" and s_[2] == "+=" and is_val(s_[3]) and fld(s_[4], "step")]
+    tests = [i for i, s_ in enumerate(st) if s_[0] == "If" and any(fld(y, "max") for y in T.walk(s_[2]))]
+    if len(upd) == 1 and tests and upd[0] < tests[0]:
+        R.ok("C17.next", "cmdnext:update", "`*val += step` is a top-level statement before the limit test")
+    else:
+        R.violation("C17.next", "cmdnext:update", "NEXT does not add the step to the loop variable in place, unconditionally and before the limit test: after the loop ends "
+                    "the variable does not hold the first value beyond the limit", **where)
+    ok = False
+    if tests:
+        c = T.strip_casts(st[tests[0]][2])
+        parts = flatten(c, "&&")
+        if len(parts) == 2:
+            sig = []
+            for p_ in parts:
+                alts = flatten(p_, "||")
+                if len(alts) != 2:
+                    break
+                a, b = T.strip_casts(alts[0]), T.strip_casts(alts[1])
+                loc = T.is_node(T.strip_casts(b[3])) and T.strip_casts(b[3])[0] == "Ref" and T.strip_casts(b[3])[2] == "local" if b[0] == "Bin" else False
+                if a[0] == "Bin" and b[0] == "Bin" and fld(a[3], "step") and T.lit_value(a[4]) == 0 and (is_val(b[3]) or loc) and fld(b[4], "max"):
+                    sig.append((a[2], b[2]))
+            ok = sorted(sig) == [("<", "<="), (">", ">=")]
+        jumps = any(fld(t, "stmtline") or T.text(t).endswith("stmtline") for t, how, l, n in T.writes(st[tests[0]][3])) and any(y[0] == "Return" for y in T.walk(st[tests[0]][3]))
+        if ok:
+            R.ok("C17.next", "cmdnext:test", "(step < 0 || v <= max) && (step > 0 || v >= max)")
+        else:
+            R.violation("C17.next", "cmdnext:test", "the limit test of NEXT is not (step < 0 || v <= max) && (step > 0 || v >= max)", **where)
+        if jumps:
+            R.ok("C17.next", "cmdnext:continue", "continuing branch restores the home line/token and returns")
+        else:
+            R.violation("C17.next", "cmdnext:continue", "the continuing branch of NEXT does not jump back to the loop's home line", **where)
 
 
 def run(P, R, tier):
@@ -277,6 +329,9 @@ def run(P, R, tier):
         else:
             R.violation("C17.chain", "%s->%s" % (a, b), "%s parses its operands with %s (first %s), expected %s: operator precedence changes" % (a, sorted(set(called)), first, b),
                         file=f["file"], line=f["line"], function=f["q"])
+
+    # ------------------------------------------------------------------ C17.next (FOR/NEXT control flow)
+    next_rule(P, R, fn)
 
     # ------------------------------------------------------------------ C17.tokens
     R.rule("C17.tokens", "every producible token has a listtokens case and exactly one consumer role; spellings map to one token", minimum=200)
